@@ -8,6 +8,7 @@ import props_locale
 import props_path
 import props_file
 import props_pool
+import props_thread
 SPECS = {
     "C01": props_resource.C01,
     "C02": props_resource.C02,
@@ -26,7 +27,8 @@ SPECS = {
     "C17": props_file.C17,
     "C07": props_pool.C07,
     "C08": props_pool.C08,
+    "C20": props_thread.C20,
 }
 # specs that can be run (./check) but are not claimed in MANIFEST.json yet
-IN_PROGRESS = {"C07", "C08"}
+IN_PROGRESS = {"C20"}
 NOT_CLAIMED = {}
